@@ -46,7 +46,8 @@ class EliminateVariable:
 
     def global_mutations(self, node, input_):
         ops = node[1:]
-        targets = list(filter(lambda n: n.is_leaf(), ops))
+        targets = list(
+            filter(lambda n: n.is_leaf() and not is_const(n), ops))
         for t in targets:
             for c in ops:
                 if c == t:
